@@ -1502,6 +1502,18 @@ class Interp:
             return {"starts_with": b.startswith(xb), "ends_with": b.endswith(xb), "contains": xb in b}[m]
         if gen in ("alloc::string::String::new", "alloc::string::String::with_capacity"):
             return ""
+        if gen == "core::ops::arith::AddAssign::add_assign" and len(args) == 2:
+            tgt = self.ev(args[0], env, depth)
+            add = self.ev(args[1], env, depth)
+            add = add.get() if isinstance(add, Ref) else add
+            cur = tgt.get() if isinstance(tgt, Ref) else tgt
+            if isinstance(cur, str) and isinstance(add, str):
+                if isinstance(tgt, Ref):
+                    tgt.set(cur + add)
+                else:
+                    self.assign(args[0], cur + add, env, depth)
+                return ()
+            raise Unknown("add_assign on %r" % (cur,))
         if gen in ("core::ptr::eq", "core::ptr::addr_eq"):
             a_ = self.ev(args[0], env, depth)
             b_ = self.ev(args[1], env, depth)
